@@ -546,6 +546,8 @@ pub enum CallResult {
     Strings(Vec<String>),
     Unit,
     Panicked(String),
+    /// (bootstrap list, node handles) of a `Testnet`
+    Testnet(Result<(Vec<String>, Vec<Dht>), String>),
 }
 
 #[derive(Debug, Clone, PartialEq, Eq, Hash)]
@@ -872,6 +874,118 @@ impl World {
             Poll::Pending => panic!("node build still pending after first iteration"),
         }
         idx
+    }
+
+    /// Build a network with the library's own `Testnet::new(count)` (the blocking constructor:
+    /// every node is built with the blocking builder and `bootstrapped()` is awaited for each) on
+    /// a helper thread, while this world runs the actors it spawns. Nodes live on 127.0.0.1 with
+    /// ports `base_port + i`. Returns the world indices of the nodes and the testnet's bootstrap
+    /// list, or what went wrong.
+    pub fn add_testnet(&mut self, count: usize, base_port: u16, horizon: u64) -> Result<(Vec<usize>, Vec<String>), String> {
+        let first = self.nodes.len();
+        let (tx, rx) = std::sync::mpsc::channel();
+        let tid = Arc::new(std::sync::atomic::AtomicI32::new(0));
+        let register = |world_idx: usize, k: usize| -> Arc<NodeSync> {
+            let sync = NodeSync::new();
+            let mut g = shared();
+            let s = g.as_mut().expect("world");
+            assert_eq!(s.nodes.len(), world_idx);
+            s.nodes.push(NodeShared {
+                sync: sync.clone(),
+                inbox: VecDeque::new(),
+                read_timeout: 100 * US,
+                rng: RngStream::new(0x7E57 ^ ((k as u64) << 8)),
+                sock_open: false,
+                bound_port: base_port + k as u16,
+                skew_micros: 0,
+                tid_override: None,
+            });
+            assert!(s.constructing.is_none());
+            s.constructing = Some(world_idx);
+            sync
+        };
+        let mut pending_sync = if count > 0 { Some(register(first, 0)) } else { None };
+        let st = SyncThread { rx, tid: tid.clone() };
+        std::thread::Builder::new()
+            .name("testnet-builder".into())
+            .spawn(move || {
+                tid.store(unsafe { libc::syscall(libc::SYS_gettid) } as i32, Ordering::SeqCst);
+                let r = crate::checks::quiet(|| catch_unwind(AssertUnwindSafe(|| dht::Testnet::new(count))));
+                let _ = tx.send(match r {
+                    Ok(Ok(t)) => CallResult::Testnet(Ok((t.bootstrap.clone(), t.nodes.clone()))),
+                    Ok(Err(e)) => CallResult::Testnet(Err(format!("Testnet::new returned an error: {e}"))),
+                    Err(_) => CallResult::Testnet(Err("Testnet::new panicked".into())),
+                });
+            })
+            .map_err(|e| e.to_string())?;
+        let deadline = self.now + horizon;
+        let mut built = 0usize;
+        let result = loop {
+            if let Some(r) = Self::settle_sync(&st) {
+                break r;
+            }
+            // the helper sleeps: either a freshly spawned actor has to reach its first baton ...
+            if let Some(sync) = pending_sync.clone() {
+                let taken = shared().as_ref().map(|s| s.constructing.is_none()).unwrap_or(false);
+                if taken {
+                    {
+                        let mut b = sync.lock();
+                        while !(b.phase == Phase::Parked || b.phase == Phase::Exited) {
+                            b = sync.cv.wait(b).unwrap_or_else(|e| e.into_inner());
+                        }
+                    }
+                    let mut cfg = NodeCfg::new([127, 0, 0, 1], base_port + built as u16).server();
+                    cfg.rng_seed = 0x7E57 ^ ((built as u64) << 8);
+                    self.nodes.push(NodeHandle {
+                        cfg,
+                        dht: None,
+                        alive: true,
+                        exited: None,
+                        next_iter_at: self.now,
+                        iterations: 0,
+                        blocked: false,
+                        blocked_why: None,
+                        contacted: BTreeSet::new(),
+                        sync,
+                        digest: 0,
+                    });
+                    if self.keep_log {
+                        let at = self.now;
+                        self.log.push(LogEntry::Start { node: first + built, at });
+                    }
+                    built += 1;
+                    pending_sync = if built < count { Some(register(first + built, built)) } else { None };
+                    continue;
+                }
+            }
+            // ... or the world has to make progress (a node answers Check / Info / finishes its bootstrap)
+            if self.now > deadline {
+                return Err(format!("Testnet::new({count}) did not return within {} virtual seconds ({built} nodes built)", horizon / SEC));
+            }
+            if self.step(deadline).is_none() {
+                self.advance_to(deadline + 1);
+            }
+        };
+        if let Some(s) = shared().as_mut() {
+            s.constructing = None;
+        }
+        match result {
+            CallResult::Testnet(Ok((bootstrap, nodes))) => {
+                if nodes.len() != count || built != count {
+                    return Err(format!("Testnet::new({count}) returned {} nodes ({built} actors were started)", nodes.len()));
+                }
+                let boots: Vec<SocketAddrV4> = bootstrap.iter().filter_map(|b| b.parse().ok()).collect();
+                for (i, d) in nodes.into_iter().enumerate() {
+                    self.nodes[first + i].dht = Some(d.as_async());
+                    if i > 0 {
+                        self.nodes[first + i].cfg.bootstrap = boots.clone();
+                    }
+                }
+                Ok(((first..first + count).collect(), bootstrap))
+            }
+            CallResult::Testnet(Err(e)) => Err(e),
+            other => Err(format!("unexpected {other:?}")),
+        }
     }
 
     pub fn dht(&self, node: usize) -> AsyncDht {
